@@ -24,11 +24,15 @@ func precSpec(r *Rng, maxLevels, maxOps int) (*GSpec, []opInfo) {
 	s := &GSpec{Tokens: []string{"ATOM", "LP", "RP"}}
 	var ops []opInfo
 	nl := 1 + r.Intn(maxLevels)
+	// levels are arbitrary positive integers: consecutive small ones, widely spaced ones (Prolog style
+	// priorities), large ones
+	scale := Pick(r, []int{1, 1, 1, 10, 100, 128, 300, 65536})
+	off := Pick(r, []int{0, 0, 0, 250, 1000, 1 << 20})
 	for l := 1; l <= nl; l++ {
 		right := r.Chance(1, 3)
 		n := 1 + r.Intn(maxOps)
 		for k := 0; k < n; k++ {
-			ops = append(ops, opInfo{l, right})
+			ops = append(ops, opInfo{l*scale + off, right})
 		}
 	}
 	// shuffle so that declaration order is unrelated to precedence
